@@ -43,6 +43,27 @@ type FsNode struct {
 	Target   string    `json:"target,omitempty"`
 	Children []*FsNode `json:"children,omitempty"`
 	NFiles   int       `json:"nfiles,omitempty"` // a directory of NFiles generated files (large directories)
+	Mode     string    `json:"mode,omitempty"`   // permission / special bits set with chmod after creation: e.g. "sticky|0777", "setgid|0755", "setuid|0755", "0000"
+}
+
+// fsMode parses FsNode.Mode: what kind of file it is does not depend on any of these bits
+func fsMode(m string) os.FileMode {
+	var out os.FileMode
+	for _, part := range strings.Split(m, "|") {
+		switch part {
+		case "sticky":
+			out |= os.ModeSticky
+		case "setgid":
+			out |= os.ModeSetgid
+		case "setuid":
+			out |= os.ModeSetuid
+		default:
+			var perm uint32
+			fmt.Sscanf(part, "%o", &perm)
+			out |= os.FileMode(perm) & os.ModePerm
+		}
+	}
+	return out
 }
 
 // FsInput.FailCommit / FailFlavor: the k-th block commit fails (see Store) - the import then has to fail as a whole
@@ -55,6 +76,16 @@ type FsInput struct {
 }
 
 func materialise(dir string, n *FsNode) error {
+	if err := materialise1(dir, n); err != nil {
+		return err
+	}
+	if n.Mode != "" && (n.Kind == "file" || n.Kind == "dir") {
+		return os.Chmod(filepath.Join(dir, n.Name), fsMode(n.Mode))
+	}
+	return nil
+}
+
+func materialise1(dir string, n *FsNode) error {
 	p := filepath.Join(dir, n.Name)
 	switch n.Kind {
 	case "file":
@@ -408,6 +439,15 @@ func scnFsImport(rep *Report, rng *Rng, tier string, outdir string) {
 		add(FsInput{Root: &FsNode{Kind: "dir", Name: "longnames", Children: kids}})
 	}
 	// fifos at several depths
+	// permission and special bits: a sticky or setgid directory, a setuid / setgid / unreadable-by-others file are directories and
+	// regular files like any other (the harness runs as root, so mode 0000 is still readable)
+	add(FsInput{Root: &FsNode{Kind: "dir", Name: "r", Children: []*FsNode{
+		{Kind: "dir", Name: "dropbox", Mode: "sticky|0777", Children: []*FsNode{{Kind: "file", Name: "in", Size: 4}}},
+		{Kind: "dir", Name: "shared", Mode: "setgid|0775", Children: []*FsNode{{Kind: "file", Name: "doc", Size: 300, Seed: 5}, {Kind: "symlink", Name: "l", Target: "doc"}}},
+		{Kind: "file", Name: "su", Size: 7, Mode: "setuid|0755"}, {Kind: "file", Name: "sg", Size: 8, Mode: "setgid|0755"}, {Kind: "file", Name: "both", Size: 9, Mode: "setuid|setgid|sticky|0700"},
+		{Kind: "file", Name: "locked", Size: 10, Mode: "0000"}, {Kind: "file", Name: "ro", Size: 0, Mode: "0444"}, {Kind: "dir", Name: "private", Mode: "0700"}, {Kind: "dir", Name: "t", Mode: "sticky|setgid|0755"}}}})
+	add(FsInput{Root: &FsNode{Kind: "dir", Name: "tmp", Mode: "sticky|0777"}})
+	add(FsInput{Root: &FsNode{Kind: "file", Name: "suid-root", Size: 12, Mode: "setuid|0755"}})
 	add(FsInput{Root: &FsNode{Kind: "fifo", Name: "pipe"}})
 	add(FsInput{Root: &FsNode{Kind: "dir", Name: "r", Children: []*FsNode{{Kind: "file", Name: "a", Size: 5}, {Kind: "dir", Name: "d", Children: []*FsNode{{Kind: "fifo", Name: "p"}}}}}})
 	add(FsInput{Root: &FsNode{Kind: "dir", Name: "r", Children: []*FsNode{{Kind: "dir", Name: "d", Children: []*FsNode{{Kind: "dir", Name: "e", Children: []*FsNode{{Kind: "symlink", Name: "s", Target: "x"}, {Kind: "fifo", Name: "zz"}}}}}}}})
